@@ -254,14 +254,18 @@ class HSDPDistributor(DistributorInterface):
         """
         if self._communicate_params:
             # Perform your update to your local masked parameters and copy into buffers.
-            torch._foreach_add_(
-                self._local_masked_blocked_params,
-                masked_blocked_search_directions,
-            )
-            torch._foreach_copy_(
-                self._local_masked_dist_blocked_buffers,
-                self._local_masked_blocked_params,
-            )
+            # NOTE: The local lists are empty if no block assigned to this rank has a gradient while blocks assigned
+            # to other ranks in the group do; torch._foreach_* ops do not accept empty lists. The AllGather below
+            # must still be performed since it is a collective over the group.
+            if masked_blocked_search_directions:
+                torch._foreach_add_(
+                    self._local_masked_blocked_params,
+                    masked_blocked_search_directions,
+                )
+                torch._foreach_copy_(
+                    self._local_masked_dist_blocked_buffers,
+                    self._local_masked_blocked_params,
+                )
 
             self.all_gather_into_tensor()
 
@@ -275,10 +279,12 @@ class HSDPDistributor(DistributorInterface):
         else:
             # Search directions multiplied by alpha are distributed.
             # Copy the local search directions to the communication buffer.
-            torch._foreach_copy_(
-                self._local_masked_dist_blocked_buffers,
-                masked_blocked_search_directions,
-            )
+            # NOTE: See the note above on empty local lists.
+            if masked_blocked_search_directions:
+                torch._foreach_copy_(
+                    self._local_masked_dist_blocked_buffers,
+                    masked_blocked_search_directions,
+                )
 
             self.all_gather_into_tensor()
 
@@ -288,6 +294,18 @@ class HSDPDistributor(DistributorInterface):
                 self._global_masked_blocked_params,
                 self._global_masked_dist_blocked_buffers,
             )
+
+    def peers_have_gradients(self) -> bool:
+        """Returns whether any block in the communication group has a gradient.
+
+        NOTE: The global grad selector is identical on all ranks of the group (the gradients are synchronized before
+        the optimizer step), so all ranks agree on whether the AllGather in update_params() takes place.
+
+        Returns:
+            peers_have_gradients (bool): Whether some block updated through communication has a gradient.
+
+        """
+        return any(self._global_grad_selector)
 
     def _distribute_buffer_sizes(
         self,
